@@ -212,7 +212,7 @@ func c20Case(i int, raw []byte) Result {
 			if oerr == nil {
 				which := ""
 				for _, k := range c.Epub.Enc {
-					if k == "ch1" || k == "ch2" {
+					if k == "ch1" || k == "ch2" || k == "nav" {
 						which += k
 					}
 				}
